@@ -46,6 +46,10 @@ class Prover:
         for a, b in list(les):
             if (b, a) in les and a != b:
                 self.facts.add(('eq',) + tuple(sorted((a, b), key=repr)))
+        # a power of two is not zero
+        for f in list(self.facts):
+            if f[0] == 'true' and len(f) == 2 and isinstance(f[1], tuple) and f[1][:2] == ('app', 'is_pow2') and not is_c(f[1][2]):
+                self.facts.add(('lt', C(0), f[1][2]))
         self.use_J = use_J
         self.ax = set(extra_axioms)
         self.max_depth = max_depth
@@ -239,6 +243,9 @@ class Prover:
             if f[0] == 'eq':
                 for x, y in ((f[1], f[2]), (f[2], f[1])):
                     if y == t and x[0] == 'app' and x[1] in ('round_down', 'round_up') and x[2] == t and self.divides(d, x[3]):
+                        return True
+                    # the same test spelled with the low bits:  p & (a - 1) == 0,  p % a == 0
+                    if y == C(0) and x[0] == 'app' and x[1] == 'mod' and x[2] == t and self.divides(d, x[3]):
                         return True
         k = t[0]
         if k == 'app':
